@@ -21,6 +21,8 @@ def library_dirs(ctx):
                 with open(os.path.join(d, lib + ".sld"), "w") as f:
                     f.write("(define-library (%s) (import (scheme base)) (export %s) (begin (define-syntax m (syntax-rules () ((m a) (list 'lib-%s)))) (define %s (car (cons %d (m 0))))))\n"
                             % (lib, name, who, name, val))
+            with open(os.path.join(d, "shared.sld"), "w") as f:      # the same text in both directories
+                f.write("(define-library (shared) (import (scheme base)) (export next!) (begin (define n 0) (define (next!) (set! n (+ n 1)) n)))\n")
             with open(os.path.join(d, "prog.scm"), "w") as f:
                 f.write("(import (scheme base))\n(define program-of-%s 1)\n" % who)
             LIBDIRS[who] = d
